@@ -14,10 +14,14 @@ def fails(ls):
         out = subprocess.run([hb, 'exec'], input=inp, stdout=subprocess.PIPE, stderr=subprocess.DEVNULL, text=True, timeout=60).stdout
     except subprocess.TimeoutExpired:
         return False
-    if sig == 'panic':
-        # only a panic on the LAST line counts (earlier panics = broken script)
-        outs = [l for l in out.splitlines() if l.startswith('< ')]
-        return bool(outs) and outs[-1] == '< panic'
+    if sig.startswith('panic'):
+        # `panic` or `panic:<substring of the panic message>`; only a panic on the LAST line counts
+        want = sig[6:] if sig.startswith('panic:') else ''
+        ls_out = out.splitlines()
+        outs = [i for i, l in enumerate(ls_out) if l.startswith('< ')]
+        if not outs or ls_out[outs[-1]] != '< panic': return False
+        msg = ls_out[outs[-1] + 1] if outs[-1] + 1 < len(ls_out) else ''
+        return want in msg
     return any(l.startswith('! ') and sig in l for l in out.splitlines())
 
 assert fails(lines), "does not reproduce"
